@@ -134,4 +134,46 @@ theorem passGet_tac (cs : Nat) (hcs : 0 < cs) (chunks : List (List Int)) (h : La
     simp only [this, if_true]
     rw [List.getElem?_eq_none (by simp; omega)]
 
+theorem cmp_total_asymm (a b : R) (tac : Bool) (hidx : a.index ≠ b.index) :
+    compareRanks64 a b tac = !compareRanks64 b a tac := by
+  unfold compareRanks64
+  by_cases h1 : packed a < packed b
+  · have : ¬ packed b < packed a := by omega
+    have : packed b > packed a := h1
+    simp [h1, *]
+  · by_cases h2 : packed a > packed b
+    · have : packed b < packed a := h2
+      simp [h1, h2, this]
+    · have he : packed a = packed b := by omega
+      simp only [he, Nat.lt_irrefl, gt_iff_lt, if_false]
+      by_cases hle : a.index ≤ b.index
+      · have : ¬ b.index ≤ a.index := by omega
+        cases tac <;> simp [hle, this]
+      · have : b.index ≤ a.index := by omega
+        cases tac <;> simp [hle, this]
+
+theorem cmp_trans (a b c : R) (tac : Bool)
+    (hab : compareRanks64 a b tac = true) (hbc : compareRanks64 b c tac = true) : compareRanks64 a c tac = true := by
+  unfold compareRanks64 at *
+  by_cases h1 : packed a < packed b
+  · by_cases h2 : packed b < packed c
+    · rw [if_pos (by omega)]
+    · by_cases h2' : packed b > packed c
+      · simp [h2, h2'] at hbc
+      · have : packed b = packed c := by omega
+        rw [if_pos (by omega)]
+  · by_cases h1' : packed a > packed b
+    · simp [h1, h1'] at hab
+    · have e1 : packed a = packed b := by omega
+      simp only [e1, Nat.lt_irrefl, gt_iff_lt, if_false] at hab
+      by_cases h2 : packed b < packed c
+      · rw [if_pos (by omega)]
+      · by_cases h2' : packed b > packed c
+        · simp [h2, h2'] at hbc
+        · have e2 : packed b = packed c := by omega
+          simp only [e2, Nat.lt_irrefl, gt_iff_lt, if_false] at hbc
+          simp only [e1, e2, Nat.lt_irrefl, gt_iff_lt, if_false]
+          cases tac <;> simp at * <;> omega
+
+
 end Fzf.Rank
